@@ -162,6 +162,10 @@ def api_run(target, k, n, exc=InjectedFault, big=False, ret=None, sink_kind=None
         write(sink.fp if sink_kind == 'gzip' else sink)
     except exc:
         raised = True
+    if raised and not big:
+        # whatever the failed write abandoned must stay abandoned: collect garbage while the caller still holds the open sink
+        import gc
+        gc.collect()
     first = sink.getvalue()
     second = None
     if raised:
